@@ -149,14 +149,26 @@ type pairStatsT struct {
 func runPairs(e *lib.Env, mods []stateMod, cal *calibration, statePs []*stateProg, stateDet []*detProg, progs []*detProg) *pairStatsT {
 	ps := &pairStatsT{extra: map[string]any{}}
 	var statePool, otherPool []*pairProg
+	// only programs whose K CLI runs were byte-identical take part: a program that is
+	// nondeterministic on its own cannot be compared with itself
+	unstablePrograms := 0
 	for i, sp := range statePs {
+		if !stateDet[i].stable {
+			unstablePrograms++
+			continue
+		}
 		statePool = append(statePool, &pairProg{name: stateDet[i].name, class: "state", path: stateDet[i].path, src: sp.src, state: sp, labels: true})
 	}
 	for _, p := range progs {
 		if p.class == "order" || p.class == "gen" {
+			if !p.stable {
+				unstablePrograms++
+				continue
+			}
 			otherPool = append(otherPool, &pairProg{name: p.name, class: p.class, path: p.path, src: p.src, labels: p.class == "order"})
 		}
 	}
+	ps.extra["programs_excluded_because_their_own_runs_differ"] = unstablePrograms
 	type pair struct{ a, b *pairProg }
 	var pairs []pair
 	r := e.Rand("pairs")
@@ -241,17 +253,20 @@ func runPairs(e *lib.Env, mods []stateMod, cal *calibration, statePs []*statePro
 			bump("ordered_pairs_equal")
 			return
 		}
-		// confirm: the difference must reproduce (the baseline was stable twice)
+		// confirm: the difference must reproduce, and a third alone run must still agree with
+		// the baseline (the baseline was stable twice already)
 		so2, se2, note2 := runWorker(a.path, b.path)
-		if note2 != "" {
+		so0, se0, note0 := runWorker("", b.path)
+		if note2 != "" || note0 != "" {
 			bump("inconclusive")
-			e.Inconclusive("pair " + a.name + ";" + b.name + ": confirmation run: " + note2)
+			e.Inconclusive("pair " + a.name + ";" + b.name + ": confirmation run: " + note2 + note0)
 			return
 		}
 		got2 := observe(b, so2, se2)
+		base3 := observe(b, so0, se0)
 		var confirmed []string
 		for _, id := range diffs {
-			if got2.val[id] != b.base.val[id] {
+			if got2.val[id] != b.base.val[id] && base3.val[id] == b.base.val[id] {
 				confirmed = append(confirmed, id)
 			}
 		}
@@ -263,7 +278,9 @@ func runPairs(e *lib.Env, mods []stateMod, cal *calibration, statePs []*statePro
 		bump("ordered_pairs_differing")
 		lostAll := b.labels && got.lost && got2.lost && !b.base.lost
 		report := func(culprit, id string, gotv string) {
-			obsName := id
+			// key by the observing module (probe.X and post.X are the same observation taken
+			// before and after B's own touches); the text names the exact label
+			obsName := strings.TrimPrefix(strings.TrimPrefix(id, "probe."), "post.")
 			if lostAll {
 				obsName = "output-lost"
 			}
@@ -277,7 +294,7 @@ func runPairs(e *lib.Env, mods []stateMod, cal *calibration, statePs []*statePro
 			leaksByKey[key]++
 			ps.mu.Unlock()
 			what := fmt.Sprintf("program %s on a fresh VM behaves differently after %s ran on another fresh VM of the same process (cause in the first program: %s): observation %s is %q alone but %q afterwards",
-				b.name, a.name, culprit, obsName, clip(b.base.val[id], 300), clip(gotv, 300))
+				b.name, a.name, culprit, id, clip(b.base.val[id], 300), clip(gotv, 300))
 			var sb strings.Builder
 			sb.WriteString("C20 fresh-VM pair. Re-run: write the two programs to files A.php and B.php and run `.build/c20 worker B.php` and `.build/c20 worker A.php B.php`;\ncompare what follows the @@C20-NEXT-PROGRAM@@ marker.\n\n" + what + "\n\n")
 			sb.WriteString("==== program A (" + a.name + ") ====\n" + a.src + "\n==== program B (" + b.name + ") ====\n" + b.src + "\n")
@@ -288,46 +305,65 @@ func runPairs(e *lib.Env, mods []stateMod, cal *calibration, statePs []*statePro
 			report(a.class, confirmed[0], got.val[confirmed[0]])
 			return
 		}
-		// attribution: which single touch of A reproduces which differing observation
-		attributed := map[string]bool{}
-		single := func(culprit string, touched map[string]bool) {
+		// attribution. First the program without any touch (same declarations, same probes):
+		// what differs already then is caused by running *any* program before B. Then every
+		// single touch of A on its own: a touch is the cause of the observations that differ
+		// with it but not without it.
+		attributed := map[string]bool{} // "@"+observation id
+		runVariant := func(culprit string, touched map[string]bool) (*observation, string, bool) {
 			sp := buildStateProgram(mods, a.state.id, touched, cal.modOK)
-			path := writeProg("attr", a.name+"__"+culprit, sp.src)
+			path := writeProg("attr", a.name+"__"+culprit+"__before_"+b.name, sp.src)
 			so3, se3, note3 := runWorker(path, b.path)
 			if note3 != "" {
-				return
+				return nil, "", false
 			}
-			got3 := observe(b, so3, se3)
-			lost3 := b.labels && got3.lost && !b.base.lost
-			if lostAll && !lost3 {
-				return
+			return observe(b, so3, se3), sp.src, true
+		}
+		differs := func(o *observation, id string) bool {
+			if lostAll {
+				return b.labels && o.lost && !b.base.lost
 			}
+			return o.val[id] != b.base.val[id]
+		}
+		reportAs := func(culprit, id, gotv, srcA string) {
+			tmp := *a
+			tmp.src = srcA
+			saveA := a
+			a = &tmp
+			report(culprit, id, gotv)
+			a = saveA
+		}
+		o0, src0, ok0 := runVariant("no-touch", map[string]bool{})
+		if ok0 {
+			first := true
 			for _, id := range confirmed {
-				if got3.val[id] != b.base.val[id] {
-					if !attributed[culprit] {
-						attributed[culprit] = true
-						tmp := *a
-						tmp.src = sp.src
-						saveA := a
-						a = &tmp
-						report(culprit, id, got3.val[id])
-						a = saveA
-					}
+				if differs(o0, id) {
 					attributed["@"+id] = true
+					if first || !lostAll {
+						reportAs("any-program", id, o0.val[id], src0)
+					}
+					first = false
+					if lostAll {
+						break
+					}
 				}
 			}
 		}
 		for _, t := range a.state.touched {
-			single(t, map[string]bool{t: true})
-		}
-		left := 0
-		for _, id := range confirmed {
-			if !attributed["@"+id] {
-				left++
+			ot, srct, okt := runVariant(t, map[string]bool{t: true})
+			if !okt {
+				continue
 			}
-		}
-		if left > 0 {
-			single("declarations", map[string]bool{})
+			reported := false
+			for _, id := range confirmed {
+				if differs(ot, id) && !(ok0 && differs(o0, id)) {
+					attributed["@"+id] = true
+					if !reported {
+						reported = true
+						reportAs(t, id, ot.val[id], srct)
+					}
+				}
+			}
 		}
 		for _, id := range confirmed {
 			if !attributed["@"+id] {
